@@ -48,6 +48,7 @@ type harnessOut struct {
 	WallS        float64        `json:"wall_s"`
 	MaxSteps     int            `json:"max_steps_seen"`
 	Vacuous      bool           `json:"vacuous"`
+	Reports      []string       `json:"reports,omitempty"`
 }
 
 func main() {
@@ -166,7 +167,7 @@ func main() {
 		hr := sym.RunHarness(prog, fn, hc)
 		ho := &harnessOut{Name: hr.Harness, Paths: hr.Paths, Outcomes: hr.Outcomes, Findings: hr.Findings, Reached: hr.Reached,
 			Asserts: hr.Asserts, SymAsserts: hr.SymAsserts, NontrivPaths: hr.NontrivPaths, Inconclusive: hr.Inconclusive,
-			Samples: hr.Samples, WallS: hr.Wall.Seconds(), MaxSteps: hr.MaxStepsSeen}
+			Samples: hr.Samples, WallS: hr.Wall.Seconds(), MaxSteps: hr.MaxStepsSeen, Reports: hr.Reports}
 		for f := range hr.Funcs {
 			ho.Funcs = append(ho.Funcs, f)
 		}
